@@ -951,7 +951,8 @@ class X12ContextReader(object):
                         pop_loops = [x12_node for x12_node in pop_loops if x12_node.get_path().find(loop_id) == -1]
                     assert loop_id not in [x12.id for x12 in push_loops], 'Loop ID %s should not be in push loops' % (loop_id)
                     assert loop_id not in [x12.id for x12 in pop_loops], 'Loop ID %s should not be in pop loops' % (loop_id)
-                    cur_data_node = X12SegmentDataNode(self.x12_map_node, seg, push_loops, pop_loops)
+                    # (a segment outside the requested tree has no parent node)
+                    cur_data_node = X12SegmentDataNode(self.x12_map_node, seg, None, push_loops, pop_loops)
                     cur_data_node.seg_count = self._position_in_set(seg)
                     cur_data_node.cur_line_number = self.src.get_cur_line()
                 else:
@@ -962,8 +963,6 @@ class X12ContextReader(object):
                 errh.handle_errors(self.src.pop_errors())
                 # Handle errors captured in errh_list
                 cur_data_node.handle_errh_errors(errh)
-                if cur_data_node.id != 'ISA' and cur_data_node is not None:
-                    assert cur_data_node.parent is not None, 'Node "%s" has no parent' % (cur_data_node.id)
                 yield cur_data_node
         if cur_tree is not None:
             # the requested loop was still open at the end of input (always the
